@@ -499,7 +499,8 @@ func (c09) Info() core.Info {
 		Level: "exploration",
 		Rule: "statements = every choice of 0..2 (thorough: 3) grouping expressions from {key, value, substr(key,0,1), strlen(value), upper(value), is_int(value), strlen(key)} x every aggregate item (count, sum/min/max/avg over int(value) and float(value), group_concat, json_arrayagg, and arithmetic around aggregates) x WHERE {true, value filter, key filter}; stores = all stores of <= 4 pairs over three universes (text keys/values containing ('a','bc')/('ab','c') so that concatenated group values collide; integer and float valued ones with ('a','12')/('a1','2')) ; row and batch at B in {1,2,32}. " +
 			"Further universes: integers beyond 2^53, floats that agree in six decimals, integers and floats side by side (3, 3.5, -3, -3.5: sum, avg, min, max of the raw values), decimal text with leading zeros, empty values; aggregates over the name of a grouping expression, over a trailing `count(1) as cn` named before it is defined, `E as g, g as gg ... group by gg, gg`, groups that are not selected. Quick tier: pairs of grouping expressions on stores of <= 3 pairs, in two configurations, with every second aggregate item. " +
-			"Oracle: an independent fold over the reference rows: one row per distinct tuple in order of first pair, each aggregate per its README definition over that group's pairs in scan order, arithmetic per group, group columns compared by content. Non-trivial: >= 2 groups or a group with >= 2 pairs. Distinct: (statement, store, mode, B).",
+			"Oracle: an independent fold over the reference rows: one row per distinct tuple in order of first pair, each aggregate per its README definition over that group's pairs in scan order, arithmetic per group, group columns compared by content. Non-trivial: >= 2 groups or a group with >= 2 pairs. Distinct: (statement, store, mode, B)." +
+			" Also: limit 0,1 / 1,1 / 0,2 behind GROUP BY without ORDER BY (that window of the groups in first-appearance order, each folded over all of its pairs); float group values sharing one float32 image.",
 		Assumptions: []string{"quantile is excluded (approximate sketch; not listed by the property)", "aggregate arguments are all-integer or all-float per statement, except on the universes made for mixed kinds", "json_arrayagg is compared after parsing both sides as JSON", "group columns are compared by content modulo representation (the engine renders them as text)"},
 	}
 }
